@@ -11,6 +11,9 @@ use std::{
 
 use crate::util::{defer, sync::SyncWrap};
 
+#[cfg(divan_verif)]
+use crate::__verif::shim as std;
+
 /// Reusable threads for broadcasting tasks.
 ///
 /// This thread pool runs only a single task at a time, since only one benchmark
